@@ -2,7 +2,7 @@
      python -m harness.repro_worker <variant> <seed> <out.json>
 variant "plain": seed both global generators, run the scenario matrix.
 variant "noisy": first create and use decoy library objects (consuming global randomness), allocate junk (shifting
-object identities), wait a little (wall clock) - THEN seed both generators identically and run the same matrix."""
+object identities), wait a little and replace the wall clock by one that jumps an hour per reading - THEN seed both generators identically and run the same matrix."""
 import json
 import random
 import sys
@@ -193,9 +193,26 @@ def noise():
     return junk
 
 
+def jumping_clock():
+    """the noisy process also lives on another wall clock: every reading of time.time / monotonic / perf_counter /
+    process_time (and the _ns forms) is an hour later than the one before, while the plain process sees the real clock
+    (microseconds between readings).  Installed before any library module is imported, so that `from time import ...`
+    inside the library binds the replaced functions too.  Results must not depend on wall-clock time."""
+    state = {"t": 1.7e9}
+
+    def tick():
+        state["t"] += 3600.0
+        return state["t"]
+    for name in ("time", "monotonic", "perf_counter", "process_time"):
+        setattr(time, name, tick)
+        setattr(time, name + "_ns", lambda: int(tick() * 1e9))
+
+
 if __name__ == "__main__":
     variant, seed, path = sys.argv[1], int(sys.argv[2]), sys.argv[3]
     n = int(sys.argv[4]) if len(sys.argv) > 4 else 40
+    if variant == "noisy":
+        jumping_clock()
     keep = noise() if variant == "noisy" else None
     res = {}
     # the noisy process also runs the matrix in the opposite order
